@@ -492,7 +492,7 @@ func init() {
 // exactly one goroutine each (no sharing), read after the join.
 func runPools(t *simrt.Tape, rc *RunCtx) *Violation {
 	const prop = "C09"
-	rc.declare("clients>=4", "nested_parallel_gemm", "poisoned_workspace_reused", "pool_double_put_observed")
+	rc.declare("clients>=4", "nested_parallel_gemm", "poisoned_workspace_reused")
 	k := 2 + t.Choose(simrt.KWorkload, 4+scale)
 	single := t.Choose(simrt.KWorkload, 8) == 7
 	if single {
